@@ -47,5 +47,27 @@ PROPS["C16"] = {
     ],
 }
 
+PROPS["C08"] = {
+    "quick_secs": 12,
+    "thorough_secs": 180,
+    "release_leg": True,
+    "totality": False,
+    "min_evaluations": 100000,
+    "technique": "history monitor: store/load/clone/set_permissions/compare histories on up to 4 handles vs per-handle byte-map model, neighbourhood re-read on every handle after each mutation",
+    "rule": "histories of 10-300 operations on up to 4 clones, addresses in a window straddling the 1024-byte page boundary (0x3e8-0x418), "
+            "page start and a second boundary, at base 0, 0x10000, 2^63-4096 and 2^64-8192; widths 8..256 bits; both endiannesses; with and "
+            "without a backing that has holes; value types il::Constant and il::Expression (constant-leaf trees, evaluated by refeval). After "
+            "every store/set_permissions each live handle is re-read byte by byte +-16 around the touched range plus random wide loads and "
+            "permissions. Non-trivial = a store that overlaps earlier values or crosses a page; distinct = (overlap shape, endianness, backing, value type).",
+    "level_text": "Random operation histories against an executable reference model with immediate re-reads on all clones, so copy-on-write leaks, "
+                  "wrong splits of overlapped values and stale back-references are seen with a short witness. Coverage is by sampling; overlap shapes reached are listed in the evidence.",
+    "level_note": "trusts the byte-map model in harness/src/c08.rs; permissions are modelled page-granular, as falcon documents set_permissions ('for the page at the given address')",
+    "assumptions": [
+        "permissions are page-granular (1024-byte pages): a set range's permissions are expected on every address of the pages it overlaps",
+        "addresses within 4 KiB of 2^64 are not used (wrap-around is not defined by the statement)",
+        "Expression values are constant-leaf trees; loaded expressions are evaluated by the harness's reference evaluator",
+    ],
+}
+
 # properties not claimed, with the reason (everything else not in PROPS is 'not built yet')
 NOT_CLAIMED = {}
